@@ -1342,19 +1342,34 @@ def qeif_oracle(inp):
   return None
 
 
+def _guarded(fn, inp):
+  """an exception raised by the implementation while a searcher input is evaluated is a finding about that input (the estimate is
+  neither finite nor non-negative: there is none), not a crash of the searcher"""
+  try:
+    return fn(inp)
+  except (C.TieBroken, numpy.linalg.LinAlgError):
+    raise
+  except Exception as e:   # noqa: BLE001
+    return dict(signature=f"C05:raises:{type(e).__name__}", what=f"the implementation raised {type(e).__name__} on a searcher input: {str(e)[:200]}", input=inp,
+                observed=repr(e)[:300], expected="a finite non-negative value", oracle="no exception on a valid input")
+
+
 def search(ctx, hints, broken):
   fails, n = [], 0
   # the registered finding (KNOWN_FINDINGS.json), exhibited on every run: deterministic instance + a few variants of the same structure
   for k in range(4):
     inst = qeif_fallback_instance(None if k == 0 else random.Random(f"qeif-fallback:{ctx.seed}:{k}"))
     n += 1
-    r = qeif_agreement_oracle(inst)
+    r = _guarded(qeif_agreement_oracle, inst)
     if r and r["signature"] not in {f["signature"] for f in fails}:
       fails.append(r)
   for h in hints:
     if isinstance(h.get("input"), dict) and h["input"].get("kind") in ("qei", "qeif", "qeih"):
       n += 1
-      r = oracle(h["input"])
+      try:
+        r = _guarded(oracle, h["input"])
+      except numpy.linalg.LinAlgError:
+        r = None
       if r and r["signature"] not in {f["signature"] for f in fails}:
         fails.append(r)
   for _ in range(ctx.n(250, 4000) * (2 if broken else 1)):
@@ -1372,7 +1387,7 @@ def search(ctx, hints, broken):
         break
   for _ in range(ctx.n(60, 600)):
     n += 1
-    r = oracle(gen_qei_case(ctx.rng))
+    r = _guarded(oracle, gen_qei_case(ctx.rng))
     if r:
       if r["signature"] not in {f["signature"] for f in fails}:
         fails.append(r)
@@ -1386,7 +1401,7 @@ def search(ctx, hints, broken):
       break
   for inp in [i for _, i in QEIF_FIXED] + [gen_qeif_case(ctx.rng) for _ in range(ctx.n(40, 400))]:
     n += 1
-    r = oracle(inp)
+    r = _guarded(oracle, inp)
     if r:
       if r["signature"] not in {f["signature"] for f in fails}:
         fails.append(r)
@@ -1395,7 +1410,12 @@ def search(ctx, hints, broken):
 
 
 def replay(ctx, payload):
-  return oracle(payload["input"])
+  inp = payload["input"]
+  fn = qeif_agreement_oracle if isinstance(inp, dict) and inp.get("regime") == "fallback-finding" and inp.get("kind") != "qeif" else oracle
+  try:
+    return _guarded(fn, inp)
+  except numpy.linalg.LinAlgError:
+    return None
 
 # --- gap round B (seeded C05_m13): histories on one live parallel-EI object
 LEVEL_TEXT += ("; histories on ONE live parallel-EI object (Model/ParallelEIHist.v, exact op-sequence correspondence on the real class over a stub predictor whose answers are "
